@@ -1,96 +1,208 @@
 import Thanos.Model.CachingBucket
+import Thanos.Model.BucketKey
 /-
-  C14 — pkg/store/cache/caching_bucket.go: Get (getReader), Exists, Attributes, Iter.
-  One object name in a wrapped bucket: `obj = some bytes` (present) or `none` (absent); one
-  directory listing `listing` (names as numbers).  The cache holds, per verb, nothing or one
-  entry; what a Fetch returns is decided per call by `see…` flags (an entry may be lost, evicted
-  or just not returned).  Answers are canonical: `data bytes | notFound | bool | size | names`.
+  C14 — pkg/store/cache/caching_bucket.go: every verb of the caching bucket over one cache.
+    GetRange (cachedAttributes + cachedGetRange), Get (getReader), Exists, Attributes, Iter
+    (with and without objstore.WithRecursiveIter).
+  The wrapped bucket is a `World`: objects by name, and what `Iter(dir, recursive)` lists (the
+  listing semantics of the object store — prefixes, delimiters — is third party: a parameter).
+  The cache maps KEY STRINGS (`cachekey.BucketCacheKey.String`, Model/BucketKey.lean) to values;
+  what a Fetch returns is a `view` of it (any part of what is stored: entries may be lost, evicted
+  or simply not returned).  Every verb computes its keys the way the code does; Iter adjusts the
+  verb to `iter-recursive` BEFORE the key is computed.
 -/
 namespace Thanos.CachingBucket
+open Thanos.CacheKeys
 
-structure OpsCache where
-  content : Option Bytes        -- "content:<name>"
-  exist : Option Bool           -- "exists:<name>"
-  attrs : Option Nat            -- "attrs:<name>" (the size; LastModified is carried along unchanged)
-  iter : Option (List Nat)      -- "iter:<dir>:<hash>"
+inductive Val where
+  | bytes (b : Bytes)
+  | flag (b : Bool)
+  | size (n : Nat)
+  | names (l : List Str)
   deriving Repr, DecidableEq
 
-def OpsCache.empty : OpsCache := ⟨none, none, none, none⟩
+/-- a fetched entry read as the kind of value the verb expects (anything else is a miss) -/
+def asBytes : Option Val → Option Bytes
+  | some (.bytes b) => some b
+  | _ => none
+def asFlag : Option Val → Option Bool
+  | some (.flag b) => some b
+  | _ => none
+def asSize : Option Val → Option Nat
+  | some (.size n) => some n
+  | _ => none
+def asNames : Option Val → Option (List Str)
+  | some (.names l) => some l
+  | _ => none
+
+structure World where
+  objs : List (Str × Bytes)
+  list : Str → Bool → List Str      -- Iter(dir, recursive) of the wrapped bucket
+  hash : Str                        -- ObjectStorageConfigHash of the Iter config
+
+def World.obj (w : World) (name : Str) : Option Bytes := w.objs.lookup name
+
+/-- the cache: key string ↦ value -/
+abbrev KCache := List (Str × Val)
+
+def keyOf (verb : Verb) (name : Str) (start stop : Nat) (hash : Str) : Str :=
+  bucketKeyString ⟨verb, name, start, stop, hash⟩
+
+inductive Call where
+  | attributes (name : Str)
+  | getRange (name : Str) (off len : Nat)
+  | get (name : Str)
+  | exists_ (name : Str)
+  | iter (dir : Str) (recursive : Bool)
+  deriving Repr, DecidableEq
 
 inductive Ans where
   | data (b : Bytes)
   | notFound
   | bool (b : Bool)
   | size (n : Nat)
-  | names (l : List Nat)
+  | names (l : List Str)
+  | failed
+  | panic
   deriving Repr, DecidableEq
 
 /-- how the caller consumes the reader returned by Get -/
 inductive ReadMode where
-  | full           -- reads until io.EOF
-  | partialRead (n : Nat)   -- reads n bytes (n < size), then Close
-  | exact          -- reads exactly size bytes without seeing io.EOF, then Close
+  | full                    -- reads until io.EOF
+  | partialRead (n : Nat)   -- reads n bytes, then Close
+  | exact                   -- reads exactly size bytes without seeing io.EOF, then Close
   deriving Repr, DecidableEq
 
-structure OpRes where
-  ans : Ans
-  calls : List String           -- calls that reached the wrapped bucket
-  cache : OpsCache
-  deriving Repr
-
-/-- what the consumer gets out of a reader over `b` -/
 def consumed (b : Bytes) : ReadMode → Bytes
   | .full => b
   | .partialRead n => b.take n
   | .exact => b
 
-/-- CachingBucket.Get + getReader.Read/Close.  `seeContent`, `seeExist`: what the Fetch of
-    [contentKey, existsKey] returns of the stored entries. -/
-def opGet (obj : Option Bytes) (maxSize : Nat) (mode : ReadMode) (seeContent seeExist : Bool) (c : OpsCache) : OpRes :=
-  match (if seeContent then c.content else none) with
-  | some b => ⟨.data (consumed b mode), [], c⟩               -- served from the cache
+structure KRes where
+  ans : Ans
+  calls : List Call                 -- calls that reached the wrapped bucket
+  stores : KCache                   -- entries stored into the cache
+  deriving Repr
+
+/-- cachedAttributes: the object's size from the cache, or from the wrapped bucket (then stored) -/
+def kAttrs (w : World) (name : Str) (view : Str → Option Val) : Option Nat × List Call × KCache :=
+  let ak := keyOf .attrs name 0 0 []
+  match asSize (view ak) with
+  | some n => (some n, [], [])
   | none =>
-    match (if seeExist then c.exist else none) with
-    | some false => ⟨.notFound, [], c⟩                       -- "we know that file doesn't exist"
+    match w.obj name with
+    | none => (none, [.attributes name], [])            -- errors are not cached
+    | some b => (some b.length, [.attributes name], [(ak, .size b.length)])
+
+/-- CachingBucket.Attributes -/
+def kAttributes (w : World) (name : Str) (view : Str → Option Val) : KRes :=
+  match kAttrs w name view with
+  | (some n, calls, st) => ⟨.size n, calls, st⟩
+  | (none, calls, st) => ⟨.notFound, calls, st⟩
+
+/-- CachingBucket.GetRange for `off ≥ 0`, `len > 0` -/
+def kGetRange (w : World) (S maxSub p : Nat) (name : Str) (off len : Nat) (view : Str → Option Val) : KRes :=
+  match kAttrs w name view with
+  | (none, calls, st) => ⟨.notFound, calls, st⟩          -- "failed to get object attributes"
+  | (some _, calls, st) =>
+    match w.obj name with
+    | none => ⟨.failed, calls, st⟩       -- a size was cached for an object that is not there
+    | some b =>
+      let cache := fun (a e : Nat) =>
+        if a < e then asBytes (view (keyOf .subrange name a e [])) else none
+      let r := getRange true b S maxSub cache p off len
+      ⟨match r.out with
+        | .ok bs => .data bs
+        | .error .panic => .panic
+        | .error .failed => .failed,
+       calls ++ r.reads.map (fun al => .getRange name al.1 al.2),
+       st ++ r.stores.map (fun e => (keyOf .subrange name e.1.1 e.1.2 [], .bytes e.2))⟩
+
+/-- CachingBucket.Get + getReader.Read/Close -/
+def kGet (w : World) (maxSize : Nat) (name : Str) (mode : ReadMode) (view : Str → Option Val) : KRes :=
+  let ck := keyOf .content name 0 0 []
+  let ek := keyOf .exists_ name 0 0 []
+  match asBytes (view ck) with
+  | some b => ⟨.data (consumed b mode), [], []⟩                          -- served from the cache
+  | none =>
+    match asFlag (view ek) with
+    | some false => ⟨.notFound, [], []⟩                                  -- "we know that file doesn't exist"
     | _ =>
-      match obj with
-      | none => ⟨.notFound, ["Get"], { c with exist := some false }⟩
+      match w.obj name with
+      | none => ⟨.notFound, [.get name], [(ek, .flag false)]⟩
       | some b =>
-        let c := { c with exist := some true }
         -- the content is stored only when the whole object was read (io.EOF seen) and fits
-        let c := if mode = .full ∧ b.length ≤ maxSize then { c with content := some b } else c
-        ⟨.data (consumed b mode), ["Get"], c⟩
+        ⟨.data (consumed b mode), [.get name],
+          (ek, .flag true) :: (if mode = .full ∧ b.length ≤ maxSize then [(ck, .bytes b)] else [])⟩
 
 /-- CachingBucket.Exists -/
-def opExists (obj : Option Bytes) (seeExist : Bool) (c : OpsCache) : OpRes :=
-  match (if seeExist then c.exist else none) with
-  | some e => ⟨.bool e, [], c⟩
-  | none => ⟨.bool obj.isSome, ["Exists"], { c with exist := some obj.isSome }⟩
+def kExists (w : World) (name : Str) (view : Str → Option Val) : KRes :=
+  let ek := keyOf .exists_ name 0 0 []
+  match asFlag (view ek) with
+  | some e => ⟨.bool e, [], []⟩
+  | none => ⟨.bool (w.obj name).isSome, [.exists_ name], [(ek, .flag (w.obj name).isSome)]⟩
 
-/-- CachingBucket.Attributes (cachedAttributes) -/
-def opAttributes (obj : Option Bytes) (seeAttrs : Bool) (c : OpsCache) : OpRes :=
-  match (if seeAttrs then c.attrs else none) with
-  | some n => ⟨.size n, [], c⟩
-  | none =>
-    match obj with
-    | none => ⟨.notFound, ["Attributes"], c⟩                 -- errors are not cached
-    | some b => ⟨.size b.length, ["Attributes"], { c with attrs := some b.length }⟩
+/-- CachingBucket.Iter: the verb is `iter-recursive` for a recursive listing, and the key is
+    computed from the adjusted verb -/
+def kIter (w : World) (dir : Str) (recursive : Bool) (view : Str → Option Val) : KRes :=
+  let key := keyOf (if recursive then .iterRecursive else .iter) dir 0 0 w.hash
+  match asNames (view key) with
+  | some l => ⟨.names l, [], []⟩
+  | none => ⟨.names (w.list dir recursive), [.iter dir recursive], [(key, .names (w.list dir recursive))]⟩
 
-/-- CachingBucket.Iter -/
-def opIter (listing : List Nat) (seeIter : Bool) (c : OpsCache) : OpRes :=
-  match (if seeIter then c.iter else none) with
-  | some l => ⟨.names l, [], c⟩
-  | none => ⟨.names listing, ["Iter"], { c with iter := some listing }⟩
+/-! ### what the wrapped bucket itself answers -/
 
-/-- what the wrapped bucket itself answers -/
-def bucketGet (obj : Option Bytes) (mode : ReadMode) : Ans :=
-  match obj with
+def bGetRange (w : World) (name : Str) (off len : Nat) : Ans :=
+  match w.obj name with
+  | none => .notFound
+  | some b => .data (bucketGetRange b off len)
+
+def bGet (w : World) (name : Str) (mode : ReadMode) : Ans :=
+  match w.obj name with
   | none => .notFound
   | some b => .data (consumed b mode)
 
-def bucketAttributes (obj : Option Bytes) : Ans :=
-  match obj with
+def bAttributes (w : World) (name : Str) : Ans :=
+  match w.obj name with
   | none => .notFound
   | some b => .size b.length
+
+/-! ### histories -/
+
+inductive KOp where
+  | getRange (name : Str) (off len p : Nat)
+  | get (name : Str) (mode : ReadMode)
+  | exists_ (name : Str)
+  | attributes (name : Str)
+  | iter (dir : Str) (recursive : Bool)
+  deriving Repr, DecidableEq
+
+structure Cfg where
+  S : Nat
+  maxSub : Nat
+  maxGet : Nat
+  deriving Repr
+
+def kStep (w : World) (cfg : Cfg) (op : KOp) (view : Str → Option Val) : KRes :=
+  match op with
+  | .getRange name off len p => kGetRange w cfg.S cfg.maxSub p name off len view
+  | .get name mode => kGet w cfg.maxGet name mode view
+  | .exists_ name => kExists w name view
+  | .attributes name => kAttributes w name view
+  | .iter dir recursive => kIter w dir recursive view
+
+def bStep (w : World) : KOp → Ans
+  | .getRange name off len _ => bGetRange w name off len
+  | .get name mode => bGet w name mode
+  | .exists_ name => .bool (w.obj name).isSome
+  | .attributes name => bAttributes w name
+  | .iter dir recursive => .names (w.list dir recursive)
+
+/-- run a history; every op sees its own view of the cache -/
+def kRun (w : World) (cfg : Cfg) : List (KOp × (Str → Option Val)) → KCache → List Ans
+  | [], _ => []
+  | (op, view) :: rest, c =>
+    let r := kStep w cfg op view
+    r.ans :: kRun w cfg rest (c ++ r.stores)
 
 end Thanos.CachingBucket
